@@ -18,6 +18,7 @@ Only what the property names is observed. `afix` is observed as 0 for an atom th
 """
 import itertools
 import shutil
+import zlib
 import tempfile
 from pathlib import Path
 
@@ -36,44 +37,75 @@ def f5(x):
     return f'{x:.5f}'
 
 
-def atom_text(it):
+EXPLICIT = '13.338 3.5828 7.1676 0.247 5.6158 11.3966 1.6735 64.8126 1.191 0.3201 1.2651 47.3486 1.28 63.546'.split()
+HKLF_FORMS = ['HKLF 4', 'HKLF 5', 'HKLF 4 1 1 0 0 0 1 0 0 0 1', 'HKLF 3', 'HKLF 4 1']
+
+
+def pick(it, n, salt=0):
+    """a deterministic choice 0..n-1 that depends on the item only (stable under shrinking)"""
+    return zlib.crc32((repr(it) + str(salt)).encode()) % n
+
+
+def kw(word, it, st):
+    """keywords are case-insensitive"""
+    if not st or not st.get('kw'):
+        return word
+    return [word, word.lower(), word.capitalize(), word][pick(it, 4, 1)]
+
+
+def num(x, it, st, salt=0):
+    """the same number in another legal spelling (5 decimals / shortest / exponent)"""
+    if not st or not st.get('num'):
+        return f5(x)
+    v = float(f5(x))
+    return [f5(v), f'{v:g}' if float(f'{v:g}') == v else f5(v), f'{v:.6e}'][pick(it, 3, 2 + salt)]
+
+
+def cmt(line, it, st):
+    if st and st.get('cmt') and pick(it, 4, 3) == 0:
+        return line + '  ! remark 7 on ' + line.split()[0].lower()
+    return line
+
+
+def atom_text(it, st=None):
     """['atom', name, sfac, [x,y,z], sof, [u…], wrap] -> one or two physical lines"""
     _, name, sfac, xyz, sof, u, wrap = it
-    head = f'{name:<5}{sfac:>2}  ' + '  '.join(f'{v:.6f}' for v in xyz) + f'  {f5(sof)}'
-    us = [f5(v) for v in u]
+    head = f'{name:<5}{sfac:>2}  ' + '  '.join(f'{v:.6f}' for v in xyz) + f'  {num(sof, it, st)}'
+    us = [num(v, it, st, 1 + j) for j, v in enumerate(u)]
     if wrap and len(us) == 6:
         return [head + '  ' + '  '.join(us[:2]) + ' =', '     ' + '  '.join(us[2:])]
-    return [head + '  ' + '  '.join(us)]
+    return [cmt(head + '  ' + '  '.join(us), it, st)]
 
 
 def resi_tokens(it):
     """['resi', cls, num, form, alias, chain]"""
-    _, cls, num, form, alias, chain = it
-    n = f'{chain}:{num}' if chain else str(num)
+    _, cls, num_, form, alias, chain = it
+    n = f'{chain}:{num_}' if chain else str(num_)
     toks = {'cn': [cls, n], 'nc': [n, cls], 'n': [n], 'c': [cls], 'cna': [cls, n, str(alias)], 'nca': [n, cls, str(alias)],
             'nac': [n, str(alias), cls]}[form]
     return toks
 
 
-def item_text(it):
+def item_text(it, st=None):
     k = it[0]
     if k == 'part':
-        return ['PART ' + str(it[1]) + ('' if it[2] is None else ' ' + f5(it[2]))]
+        return [cmt(kw('PART', it, st) + ' ' + str(it[1]) + ('' if it[2] is None else ' ' + num(it[2], it, st)), it, st)]
     if k == 'afix':
-        return ['AFIX ' + ' '.join(str(v) for v in it[1:])]
+        return [cmt(kw('AFIX', it, st) + ' ' + ' '.join(str(v) for v in it[1:]), it, st)]
     if k == 'resi':
-        return ['RESI ' + ' '.join(resi_tokens(it))]
+        return [cmt(kw('RESI', it, st) + ' ' + ' '.join(resi_tokens(it)), it, st)]
     if k == 'atom':
-        return atom_text(it)
+        return atom_text(it, st)
     if k == 'frag':
-        out = [f'FRAG {it[1]} 1 1 1 90 90 90']
+        out = [kw('FRAG', it, st) + f' {it[1]} 1 1 1 90 90 90']
         for j, nm in enumerate(it[2]):
             out.append(f'{nm:<5}{1:>2}  {0.1 + 0.11 * j:.5f}  {0.2 + 0.07 * j:.5f}  {0.3 - 0.05 * j:.5f}')
-        return out + ['FEND']
+        return out + [kw('FEND', it, st)]
     if k == 'hklf':
-        return ['HKLF 4']
+        form = HKLF_FORMS[it[1]] if len(it) > 1 else 'HKLF 4'
+        return [cmt(kw('HKLF', it, st) + form[4:], it, st)]
     if k == 'end':
-        return ['END']
+        return [cmt(kw('END', it, st), it, st)]
     if k == 'other':
         return [it[1]]
     if k == 'inc':
@@ -81,12 +113,36 @@ def item_text(it):
     raise ValueError(k)
 
 
+def sfac_lines(case):
+    """the SFAC instructions of the case: [['elems', [el…]] | ['explicit', el, wrap]…]; `case['sfac']` is the
+    resulting table (scattering-factor number -> element) by construction"""
+    return case.get('sfac_lines') or [['elems', list(case['sfac'])]]
+
+
+def sfac_text(case):
+    st = case.get('style')
+    out = []
+    for ins in sfac_lines(case):
+        word = kw('SFAC', ins, st)
+        if ins[0] == 'elems':
+            out.append(word + ' ' + ' '.join(ins[1]))
+        elif len(ins) > 2 and ins[2]:
+            out += [word + ' ' + ins[1] + ' ' + ' '.join(EXPLICIT[:9]) + ' =', '  ' + ' '.join(EXPLICIT[9:])]
+        else:
+            out.append(word + ' ' + ins[1] + ' ' + ' '.join(EXPLICIT))
+    return out
+
+
 def file_text(case, items, main):
     out = []
+    st = case.get('style')
     if main:
-        out += HEADER + ['SFAC ' + ' '.join(case['sfac']), 'UNIT ' + ' '.join('8' for _ in case['sfac']), 'FVAR 0.5 0.6 0.7 0.4']
+        flat = [e for ins in sfac_lines(case) for e in (ins[1] if ins[0] == 'elems' else [ins[1]])]
+        if flat != list(case['sfac']):
+            raise RuntimeError(f'harness: sfac_lines {sfac_lines(case)} do not spell the table {case["sfac"]}')
+        out += HEADER + sfac_text(case) + ['UNIT ' + ' '.join('8' for _ in case['sfac']), 'FVAR 0.5 0.6 0.7 0.4']
     for it in items:
-        out += item_text(it)
+        out += item_text(it, st)
     return '\n'.join(out) + '\n' if out else ''
 
 
@@ -208,7 +264,10 @@ def observe_impl(case):
             # the instruction sequence the parser ended up with (include lines, blank and continuation lines skipped)
             order = []
             for x in shx._reslist:
-                s_ = str(x)
+                try:
+                    s_ = str(x)
+                except Exception:   # printing an object is not what C03 is about (e.g. SFAC table with an element twice)
+                    s_ = type(x).__name__.upper().replace('TABLE', '')
                 if not s_.strip() or s_.startswith('+') or (isinstance(x, str) and x.startswith(' ')):
                     continue
                 order.append(s_.split()[0].upper())
@@ -243,6 +302,13 @@ def same(attr, got, want):
 def features(case):
     f = set()
     ex = expand(case)
+    sl = sfac_lines(case)
+    if len(sl) > 1:
+        f.add('sfac-several-instructions')
+    if any(ins[0] == 'explicit' for ins in sl):
+        f.add('sfac-explicit')
+    if case.get('style'):
+        f.add('style:' + '+'.join(k for k, v in sorted(case['style'].items()) if v))
     opened = dict(part=False, afix=False, resi=False)
     seen_barrier = False
     for it in ex:
@@ -322,13 +388,14 @@ def signature(case, attr, pos):
     feats = sorted(features(case))
     rel = [f for f in feats if (attr in ('part', 'sof') and f.startswith('part-open')) or (attr == 'afix' and f.startswith('afix-open'))
            or (attr in ('rnum', 'rcls') and f.startswith('resi-open')) or (attr == 'atomlist' and f in ('frag', 'include'))
-           or (attr == 'q' and f.endswith('open-at-hklf'))]
+           or (attr == 'q' and f.endswith('open-at-hklf')) or (attr == 'el' and f.startswith('sfac-'))]
     return f'C03|{attr}|{pos}|' + ('+'.join(rel) if rel else 'plain')
 
 
 def request(case):
     lines, info = abstract(case)
-    return dict(p='C03', op='file', lines=lines, sfac=[e.capitalize() for e in case['sfac']], classes=case_classes(case)), info
+    sl = [[ins[0], [e.capitalize() for e in ins[1]]] if ins[0] == 'elems' else ['explicit', ins[1].capitalize()] for ins in sfac_lines(case)]
+    return dict(p='C03', op='file', lines=lines, sfac_lines=sl, classes=case_classes(case)), info
 
 
 def check_impl(case):
@@ -365,6 +432,12 @@ def shrink(case, attr, pos, budget=120):
         except Exception:
             return False
     cur = case
+    for simpler in (lambda c: {k: v for k, v in c.items() if k != 'style'},
+                    lambda c: {k: v for k, v in c.items() if k != 'sfac_lines'},
+                    lambda c: dict(c, sfac_lines=[ins[:2] for ins in sfac_lines(c)])):
+        c2 = simpler(cur)
+        if c2 != cur and fails(c2):
+            cur = c2
     changed = True
     while changed and budget > 0:
         changed = False
@@ -413,7 +486,7 @@ def evaluate(ctx, cases, stream=None):
         feats = features(case)
         obs = observe_impl(case)
         n_atoms = len(spec)
-        ctx.count(['atoms', case['sfac'], case['body'], case.get('includes')], nontrivial=n_atoms > 0 and len(feats) > 0,
+        ctx.count(['atoms', sfac_lines(case), case.get('style'), case['body'], case.get('includes')], nontrivial=n_atoms > 0 and len(feats) > 0,
                   tags=['valid' if ans['valid'] else 'outside-domain', f'atoms={min(n_atoms, 10)}'] + sorted(feats),
                   sample=dict(stream='atoms', text=file_text(case, case['body'], True).splitlines()[6:18],
                               impl=[[a.get('name'), a.get('part'), a.get('afix'), a.get('rnum'), a.get('rcls'), a.get('sof'), a.get('q')]
@@ -436,7 +509,7 @@ def evaluate(ctx, cases, stream=None):
                     sm_ans = ctx.driver.one(sm_req)
                     sm_obs = observe_impl(small)
                     sm_msg = next((m for a_, p_, m in compare_atoms(small, sm_info, sm_obs.get('atoms', []), sm_ans['spec'], 'el_spec') if a_ == attr), msg)
-                ctx.fail(signature(small, attr, pos), sm_msg + '   [body: ' + ' / '.join(file_text(small, small['body'], False).splitlines()) + ']',
+                ctx.fail(signature(small, attr, pos), sm_msg + '   [' + ('' if len(sfac_lines(small)) == 1 and sfac_lines(small)[0][0] == 'elems' else ' / '.join(sfac_text(small)) + ' ... ') + 'body: ' + ' / '.join(file_text(small, small['body'], False).splitlines()) + ']',
                          dict(case=small, stream='atoms', expected=sm_ans['spec'], actual=sm_obs.get('atoms'), model=sm_ans['model'],
                               model_of_code_before_fixes=sm_ans['before_fix']))
         for attr, pos, msg in compare_atoms(case, info, obs['atoms'], model, 'el'):
@@ -459,7 +532,7 @@ def evaluate(ctx, cases, stream=None):
         spec_views = dict(named(ans['spec_views']), n_aniso=ans['spec_views']['n_aniso_spec'], n_iso=ans['spec_views']['n_iso_spec'])
         if spec_views != want:
             raise RuntimeError(f'harness: by-construction views differ from the Lean specification for {case}: {want} vs {spec_views}')
-        ctx.count(['views', case['sfac'], case['body'], case.get('includes')], nontrivial=bool(want['hydrogens'] or want['qpeaks'] or len(want['residues']) > 1),
+        ctx.count(['views', sfac_lines(case), case.get('style'), case['body'], case.get('includes')], nontrivial=bool(want['hydrogens'] or want['qpeaks'] or len(want['residues']) > 1),
                   tags=['views'])
         for key, w in want.items():
             got = obs['views'][key]
@@ -493,14 +566,14 @@ def evaluate_include(ctx, cases):
                 if it[0] == 'inc':
                     out.append(['i', it[1]])
                 else:
-                    for ln in item_text(it):
+                    for ln in item_text(it, case.get('style')):
                         out.append(['l', len(first)])
                         first[len(first)] = None if (not ln.strip() or ln.startswith(' ')) else ln.split()[0].upper()
             return out
         body = items_of(case['body'])
-        head = HEADER + ['SFAC', 'UNIT', 'FVAR']
+        head = HEADER + [ln for ln in sfac_text(case)] + ['UNIT', 'FVAR']
         for i, ln in enumerate(head):
-            first[10 ** 6 + i] = ln.split()[0]
+            first[10 ** 6 + i] = None if ln.startswith(' ') else ln.split()[0].upper()
         main = [['l', 10 ** 6 + i] for i in range(len(head))] + body
         fs = [dict(name=n, items=items_of(its)) for n, its in case['includes'].items()]
         reqs.append(dict(p='C03', op='splice', main=main, fs=fs))
@@ -512,8 +585,9 @@ def evaluate_include(ctx, cases):
                   tags=['include', f'files={len(case["includes"])}', 'include-in-domain' if ans['in_domain'] else 'include-outside'])
         if 'error' in obs or obs.get('order') is None:
             continue  # reported by the atoms stream
-        got = obs['order']
-        words = lambda items: [first[x[1]] for x in items if x[0] == 'l' and first[x[1]] is not None]
+        head_words = {'TITL', 'CELL', 'ZERR', 'LATT', 'SFAC', 'UNIT', 'FVAR'}   # several SFAC/FVAR lines may be kept as one object
+        got = [w for w in obs['order'] if w not in head_words]
+        words = lambda items: [first[x[1]] for x in items if x[0] == 'l' and first[x[1]] is not None and first[x[1]] not in head_words]
         spec = words(ans['spec'])
         model = None if ans['model'] is None else words(ans['model'])
         payload = dict(case=case, stream='atoms', expected=spec, actual=got, model=model)
@@ -613,6 +687,8 @@ def make_case(rng):
     if rng.random() < 0.7 and 'H' not in sfac:
         sfac[rng.randrange(nel)] = rng.choice(['H', 'H', 'D'])
     sfac = [rng.choice([e, e.upper(), e.lower()]) for e in sfac]
+    if nel >= 2 and rng.random() < 0.1:          # the same element twice (two scattering factors for one element)
+        sfac[rng.randrange(1, nel)] = sfac[0]
     b = Builder(rng, sfac)
     body = []
     includes = {}
@@ -665,11 +741,33 @@ def make_case(rng):
                     if rng.random() < 0.1:
                         body.append(b.context())
     case = dict(sfac=sfac, body=body)
+    if rng.random() < 0.5:
+        case['sfac_lines'] = rand_sfac_lines(rng, sfac)
+    if rng.random() < 0.4:
+        case['style'] = dict(kw=rng.random() < 0.6, num=rng.random() < 0.6, cmt=rng.random() < 0.5)
+    for it in body:
+        if it[0] == 'hklf' and rng.random() < 0.4:
+            it.append(rng.randrange(len(HKLF_FORMS)))
     if includes:
         case['includes'] = includes
     elif rng.random() < 0.1:
         case['mode'] = 'file'
     return case
+
+
+def rand_sfac_lines(rng, sfac):
+    """the table `sfac` spelled with several SFAC instructions of both forms, in table order"""
+    out = []
+    i = 0
+    while i < len(sfac):
+        if rng.random() < 0.35:
+            out.append(['explicit', sfac[i], rng.random() < 0.5])
+            i += 1
+        else:
+            n = rng.randint(1, 3)
+            out.append(['elems', sfac[i:i + n]])
+            i += n
+    return out
 
 
 ALPHABET = [['part', 2, 31.0], ['part', 0, None], ['afix', 43], ['afix', 0], ['resi', 'TOL', 3, 'cn', 0, None],
@@ -697,7 +795,14 @@ def enum_case(seq, gaps):
     if not after:
         body.append(['hklf'])
     body.append(['end'])
-    return dict(sfac=['C', 'H', 'O'], body=body)
+    layout = [None, [['elems', ['C']], ['elems', ['H', 'O']]], [['explicit', 'C', True], ['elems', ['H']], ['explicit', 'O', False]],
+              [['elems', ['C', 'H']], ['explicit', 'O', False]]][(sum(seq) + len(seq) + sum(gaps)) % 4]
+    case = dict(sfac=['C', 'H', 'O'], body=body)
+    if layout:
+        case['sfac_lines'] = layout
+    if (sum(seq) + 2 * sum(gaps)) % 5 == 0:
+        case['style'] = dict(kw=True, num=True, cmt=True)
+    return case
 
 
 def resi_cases(rng, n):
@@ -719,7 +824,7 @@ def resi_cases(rng, n):
 
 
 def run(ctx):
-    ctx.rule = ('generated files: SFAC of 1..5 elements in any order and case; 2..12 body items drawn from atoms (iso / aniso wrapped or not / '
+    ctx.rule = ('generated files: SFAC table of 1..5 elements in any order and case, spelled with one or several SFAC instructions of both forms (element list / explicit coefficients, wrapped or not), optionally an element twice; keywords in upper/lower/title case, numbers as 5 decimals / shortest / exponent, trailing ! comments, five HKLF forms; 2..12 body items drawn from atoms (iso / aniso wrapped or not / '
                 'riding hydrogens, own occupation code or 11), PART n [sof], AFIX mn, RESI in seven token orders, FRAG..FEND blocks, '
                 '+include files (nested up to 2, on disk), other instructions; contexts closed or left open at HKLF; peaks between HKLF and END '
                 'and after END (+WGHT); distinct by (SFAC, items); non-trivial = at least one atom and at least one of: context left open at HKLF, '
